@@ -98,6 +98,10 @@ type Config struct {
 	Policy   Policy
 	MaxSteps int64
 	Replay   []uint32 // decision log to follow; PRNG when exhausted
+	// QuietTail: once the log is exhausted every decision is 0 (first eligible
+	// task, no clock advance, first grantable case ...) instead of a PRNG draw;
+	// the minimiser uses it to cut a failing schedule down to the prefix that matters
+	QuietTail bool
 	LogPath  string   // optional full text event log
 }
 
@@ -223,6 +227,8 @@ func (s *Sched) choose(n int, tag string) int {
 		v = int(s.cfg.Replay[s.rpos]) % n
 		s.rpos++
 		s.rng.next() // keep the PRNG in step so a shortened log degrades gracefully
+	} else if s.cfg.QuietTail {
+		v = 0
 	} else {
 		v = int(s.rng.next() % uint64(n))
 	}
